@@ -35,6 +35,7 @@ type module struct {
 	dyn            string // dynamic import specifier
 	broken         bool   // syntax error present
 	link           bool   // import through the symlink "./link"
+	legacy         bool   // bare import of the sloppy-mode TypeScript script "./legacy"
 }
 
 func (m *module) rel() string { return m.dir + "/" + m.name + m.ext }
@@ -73,6 +74,9 @@ func (m *module) render() string {
 	if m.lib {
 		sb.WriteString("import { u } from \"@lib/util\";\n")
 		terms = append(terms, "u")
+	}
+	if m.legacy {
+		sb.WriteString("import \"./legacy\";\n")
 	}
 	if m.link {
 		sb.WriteString("import { v as v_link } from \"./link\";\n")
@@ -122,6 +126,8 @@ type tsconfig struct {
 	target       string // "", ES2020, ESNext
 	libDir       string // paths target: lib or lib2
 	verbatim     bool
+	strict       int // 0 absent, 1 true, 2 false
+	alwaysStrict int // 0 absent, 1 true, 2 false
 	present      bool
 	brokenJSON   bool
 }
@@ -150,6 +156,12 @@ func (t *tsconfig) render() string {
 	}
 	if t.verbatim {
 		co["verbatimModuleSyntax"] = true
+	}
+	if t.strict != 0 {
+		co["strict"] = t.strict == 1
+	}
+	if t.alwaysStrict != 0 {
+		co["alwaysStrict"] = t.alwaysStrict == 1
 	}
 	b, _ := json.MarshalIndent(map[string]interface{}{"compilerOptions": co}, "", "  ")
 	return string(b) + "\n"
@@ -249,6 +261,8 @@ func (p *project) render() *tree {
 	t.files["src/s.css"] = fmt.Sprintf("@import \"./t.css\";\n.a { color: %s }\n", p.cssColor)
 	t.files["src/t.css"] = ".t { margin: 0px }\n"
 	t.files["src/d.json"] = fmt.Sprintf("{ \"k\": %d }\n", p.jsonK)
+	// a TypeScript file without import/export: sloppy unless tsconfig strict/alwaysStrict says otherwise
+	t.files["src/legacy.ts"] = fmt.Sprintf("console.log(\"legacy\", typeof this, %d);\nvar legacyObj: any = { a: 1 };\ndelete legacyObj.a;\n", p.libVal)
 	t.files["src/lib/util.ts"] = fmt.Sprintf("export const u: number = %d;\n", p.libVal)
 	t.files["src/lib2/util.ts"] = fmt.Sprintf("export const u: number = %d;\nconsole.log(\"lib2\");\n", p.libVal+1000)
 	if p.subAsFile {
@@ -399,34 +413,71 @@ func pruneEmptyDirs(root, dir string) {
 	}
 }
 
+// number of operations of the harness's own edit scripts that the OS refused
+// (reported in the evidence; never a panic: both builds see the same tree anyway)
+var opsRefused int
+
+func soft(err error) bool {
+	if err != nil {
+		opsRefused++
+		return false
+	}
+	return true
+}
+
+// make path p free for a new file/symlink: a directory there is removed, and a
+// regular file standing where a parent directory is needed is removed
+func makeRoom(root, abs string) {
+	if st, err := os.Lstat(abs); err == nil && st.IsDir() {
+		os.RemoveAll(abs)
+	}
+	for dir := filepath.Dir(abs); dir != root && strings.HasPrefix(dir, root); dir = filepath.Dir(dir) {
+		if st, err := os.Lstat(dir); err == nil && !st.IsDir() {
+			os.Remove(dir)
+		}
+	}
+	soft(os.MkdirAll(filepath.Dir(abs), 0o755))
+}
+
 func applyOps(root string, base time.Time, ops []op) {
 	for _, o := range ops {
 		abs := filepath.Join(root, filepath.FromSlash(o.Path))
 		switch o.Kind {
 		case "remove":
-			must(os.Remove(abs))
+			if _, err := os.Lstat(abs); err == nil {
+				soft(os.RemoveAll(abs))
+			}
 			pruneEmptyDirs(root, filepath.Dir(abs))
 		case "rename":
 			to := filepath.Join(root, filepath.FromSlash(o.To))
-			must(os.MkdirAll(filepath.Dir(to), 0o755))
-			must(os.Rename(abs, to))
+			if _, err := os.Lstat(abs); err != nil {
+				continue // the source is gone: the following write creates the target
+			}
+			makeRoom(root, to)
+			soft(os.Rename(abs, to))
 			pruneEmptyDirs(root, filepath.Dir(abs))
 		case "symlink":
-			must(os.MkdirAll(filepath.Dir(abs), 0o755))
-			must(os.Symlink(o.To, abs))
+			makeRoom(root, abs)
+			os.Remove(abs)
+			soft(os.Symlink(o.To, abs))
 		case "write":
-			must(os.MkdirAll(filepath.Dir(abs), 0o755))
+			makeRoom(root, abs)
+			if st, err := os.Lstat(abs); err == nil && st.Mode()&os.ModeSymlink != 0 {
+				os.Remove(abs) // never write through a symlink into another file
+			}
 			target := abs
 			if o.Replace {
 				target = abs + ".tmp~"
 			}
-			must(os.WriteFile(target, []byte(o.Content), 0o644))
+			if !soft(os.WriteFile(target, []byte(o.Content), 0o644)) {
+				continue
+			}
 			if !o.Fresh {
 				t := base.Add(time.Duration(o.MtimeNs))
-				must(os.Chtimes(target, t, t))
+				soft(os.Chtimes(target, t, t))
 			}
 			if o.Replace {
-				must(os.Rename(target, abs))
+				soft(os.Rename(target, abs))
 			}
 		}
 	}
@@ -435,15 +486,15 @@ func applyOps(root string, base time.Time, ops []op) {
 // ---------------------------------------------------------------- generator
 
 type buildCfg struct {
-	Bundle    bool   `json:"bundle"`
-	Format    string `json:"format"`
-	Splitting bool   `json:"splitting"`
-	Minify    bool   `json:"minify"`
-	Sourcemap string `json:"sourcemap"`
-	Platform  string `json:"platform"`
-	Metafile  bool   `json:"metafile"`
-	Write     bool   `json:"write"`
-	Watch     bool   `json:"watch"`
+	Bundle    bool     `json:"bundle"`
+	Format    string   `json:"format"`
+	Splitting bool     `json:"splitting"`
+	Minify    bool     `json:"minify"`
+	Sourcemap string   `json:"sourcemap"`
+	Platform  string   `json:"platform"`
+	Metafile  bool     `json:"metafile"`
+	Write     bool     `json:"write"`
+	Watch     bool     `json:"watch"`
 	Entries   []string `json:"entries"`
 }
 
@@ -498,7 +549,7 @@ func genProject(r *Rng) *project {
 	p := &project{extra: map[string]string{}, removed: map[string]bool{}, cssColor: "red", jsonK: 1, libVal: 5}
 	p.root = pkgjson{name: "app", typ: r.Pick([]string{"", "", "module", "commonjs"}), sideEffects: r.Intn(3)}
 	p.pkg = pkgjson{name: "pkg", main: r.Pick([]string{"./main.js", "./alt.js"}), exports: r.Intn(4), sideEffects: r.Intn(2)}
-	p.ts = tsconfig{present: r.Chance(85), jsx: r.Pick([]string{"", "react", "react-jsx", "react-jsxdev", "preserve"}), libDir: "lib", useDefine: r.Intn(3), target: r.Pick([]string{"", "", "ES2020", "ESNext"})}
+	p.ts = tsconfig{present: r.Chance(85), jsx: r.Pick([]string{"", "react", "react-jsx", "react-jsxdev", "preserve"}), libDir: "lib", useDefine: r.Intn(3), strict: r.Intn(3), alwaysStrict: []int{0, 0, 1, 2}[r.Intn(4)], target: r.Pick([]string{"", "", "ES2020", "ESNext"})}
 	if r.Chance(25) {
 		p.ts.importSource = "preact"
 	}
@@ -531,6 +582,7 @@ func genProject(r *Rng) *project {
 		}
 	}
 	m0.sideEffect = true
+	m0.legacy = r.Chance(50)
 	p.entries = []string{"src/m0" + m0.ext}
 	return p
 }
@@ -624,7 +676,7 @@ func (p *project) randomEdit(r *Rng, cur *tree) (string, []op, bool) {
 		}
 	}
 	for {
-		switch r.Intn(24) {
+		switch r.Intn(26) {
 		case 0, 1, 2: // content edit (length may change)
 			m := pickLive()
 			m.val += 1 + r.Intn(500)
@@ -876,6 +928,15 @@ func (p *project) randomEdit(r *Rng, cur *tree) (string, []op, bool) {
 			p.linkTo = t.name + t.ext
 			p.mods[0].link = true
 			return "symlink src/link.js -> " + p.linkTo, nil, false
+		case 24, 25: // tsconfig strict / alwaysStrict: absent <-> true <-> false (presence and value)
+			p.ts.present = true
+			p.mods[0].legacy = true
+			if r.Bool() {
+				p.ts.strict = (p.ts.strict + 1 + r.Intn(2)) % 3
+			} else {
+				p.ts.alwaysStrict = (p.ts.alwaysStrict + 1 + r.Intn(2)) % 3
+			}
+			return fmt.Sprintf("tsconfig strict=%d alwaysStrict=%d (0 absent, 1 true, 2 false)", p.ts.strict, p.ts.alwaysStrict), nil, false
 		case 23: // toggle structural flags of a module (imports added/removed)
 			m := pickLive()
 			switch r.Intn(4) {
